@@ -12,6 +12,11 @@ pub fn canary_hash_in_set_order<H: Hasher>(set: &HashSet<String>, state: &mut H)
     }
 }
 
+/// H-ORDER: internal iteration -- the sink is captured by a closure handed to `for_each` together with the hash-set iterator
+pub fn canary_for_each_in_set_order<H: Hasher>(set: &HashSet<String>, state: &mut H) {
+    set.iter().for_each(|x| x.hash(state));
+}
+
 /// H-COMB negative: accumulator updated by a non-commutative operation
 pub fn canary_non_commutative<'a, H: Hasher>(items: impl Iterator<Item = &'a String>, state: &mut H) {
     let mut acc: u64 = 0;
